@@ -33,17 +33,16 @@ COMPONENTS = {
 ASSUMPTIONS = ["the reference interpreter assembles every probe program with a fresh Assembler; it is long-lived per "
                "worker, so process-global residue is detected by difference of histories, not by absolute freshness"]
 PROBES = ["aborted_parse", "aborted_pass1", "aborted_pass2", "object_reused", "forward_ref", "backward_ref", "cross_page_rejected",
-          "sections", "org", "bss"]
+          "sections", "org", "bss", "label_on_directive"]
 
 NOSYM = ["NOP", "RET", "RETF", "SC", "RC", "HALT", "SWAP A", "MV A, 0x{b}", "MV BA, 0x{w}", "MV X, 0x{l}", "MV Y, 0x{l}",
          "ADD A, 0x{b}", "SUB A, 0x{b}", "AND A, 0x{b}", "OR A, 0x{b}", "XOR A, 0x{b}", "CMP A, 0x{b}", "PUSHU A", "POPU A",
          "PUSHS F", "POPS F", "MV A, [0x{l}]", "MV [0x{l}], A", "MV A, (0x{i})", "MV (0x{i}), A", "MV (0x{i}), 0x{b}",
          "JR +0x{r}", "JR -0x{r}", "JRZ +0x{r}", "JRNC -0x{r}", "MV A, [X]", "MV [Y++], A", "MV A, [--X]", "INC A", "DEC A",
          "MV A, B", "MV B, A", "WAIT", "TCL", "IR", "MVW (0x{i}), 0x{w}", "TEST A, 0x{b}", "MV IL, 0x{b}", "MV I, 0x{w}"]
-SYM = ["JP {L}", "JPZ {L}", "JPNZ {L}", "JPC {L}", "CALL {L}", "CALLF {L}", "JPF {L}", "MV X, {L}", "MV A, [{L}]", "MV [{L}], A",
+SYM = ["JP {L}", "JPZ {L}", "JPNZ {L}", "JPC {L}", "JPNC {L}", "CALL {L}", "CALLF {L}", "JPF {L}", "MV X, {L}", "MV A, [{L}]", "MV [{L}], A",
        "defl {L}", "MV Y, {L}"]
-DATA = ["defb 0x{b}", "defb 1, 2, 0x{b}", "defw 0x{w}", "defw 0x{w}, 0x{w}", "defl 0x{l}", "defs {n}", "defm \"{t}\"",
-        "defb \"{t}\""]
+DATA = ["defb 0x{b}", "defb 1, 2, 0x{b}", "defw 0x{w}", "defw 0x{w}, 0x{w}", "defl 0x{l}", "defs {n}", "defm \"{t}\""]
 NEAR = ("JP ", "JPZ ", "JPNZ ", "JPC ", "JPNC ", "CALL ")
 
 
@@ -55,7 +54,7 @@ def batches(tier: str) -> List[Batch]:
 
 def _fill(t: str, r: Rng) -> str:
     return (t.replace("{b}", f"{r.below(256):02X}").replace("{w}", f"{r.below(65536):04X}")
-            .replace("{l}", f"{r.below(0x100000):05X}").replace("{i}", f"{r.below(0xE0):02X}")
+            .replace("{l}", f"{r.below(0x100000):05X}").replace("{i}", f"{r.below(0xD4):02X}")
             .replace("{r}", f"{r.below(100):02X}").replace("{n}", str(r.range(1, 9)))
             .replace("{t}", r.choice(["hi", "abc", "X", "hello!"])))
 
@@ -70,21 +69,33 @@ def _gen_program(r: Rng, good: bool) -> Dict[str, Any]:
     org_pool = r.shuffle([0x100, 0x1800, 0x8000, 0xFF80, 0x10000, 0x1FF00, 0x20010, 0x2FFF0, 0x30800, 0x84000, 0x9000, 0x4000])
     if r.chance(1, 3):
         stmts.append({"text": f".ORG 0x{org_pool.pop():X}", "kind": "org"})
+    cur_sec = "code"
     for _ in range(n):
         k = r.weighted([("nosym", 10), ("sym", 5), ("data", 4), ("section", 1), ("org", 1)])
         if k == "nosym":
             stmts.append({"text": _fill(r.choice(NOSYM), r), "kind": "ins"})
         elif k == "sym":
-            stmts.append({"text": r.choice(SYM).replace("{L}", r.choice(labels)), "kind": "ins"})
+            t = r.choice(SYM)
+            if cur_sec == "bss" and t.startswith(NEAR):
+                # bss reserves space only and is re-based after .data in pass two; page-local
+                # transfers *inside* bss have no defined page and are not generated
+                t = "MV X, {L}"
+            stmts.append({"text": t.replace("{L}", r.choice(labels)), "kind": "ins"})
         elif k == "data":
             stmts.append({"text": _fill(r.choice(DATA), r), "kind": "data"})
         elif k == "section":
-            stmts.append({"text": "SECTION " + r.choice(["data", "code", "bss", "data"]), "kind": "section"})
+            cur_sec = r.choice(["data", "code", "bss", "data"])
+            stmts.append({"text": "SECTION " + cur_sec, "kind": "section"})
             used_sections = True
         elif org_pool:
             stmts.append({"text": f".ORG 0x{org_pool.pop() + r.below(8):X}", "kind": "org"})
-    # every label is defined exactly once, on an instruction/data statement
+    # every label is defined exactly once, mostly on an instruction/data statement; the grammar
+    # (line: label? statement?) also allows a label on a SECTION/.ORG line, whose address is
+    # the location the directive establishes (where that line's next byte would go)
     cands = [i for i, s in enumerate(stmts) if s["kind"] in ("ins", "data")]
+    dir_cands = [i for i, s in enumerate(stmts) if s["kind"] in ("org", "section")]
+    if dir_cands and r.chance(1, 3):
+        cands = cands + dir_cands
     if not cands:
         stmts.append({"text": "NOP", "kind": "ins"})
         cands = [len(stmts) - 1]
@@ -94,6 +105,11 @@ def _gen_program(r: Rng, good: bool) -> Dict[str, Any]:
             stmts[i]["label"] = lb
         else:
             stmts.append({"text": "NOP", "kind": "ins", "label": lb})
+    if good and org_pool and cur_sec != "bss" and r.chance(1, 8):
+        # a page-local transfer placed at a fresh origin: same page as its label or another one
+        # (page 0 <-> page N and page N <-> page M), so that the page rule is exercised in every direction
+        stmts.append({"text": f".ORG 0x{org_pool.pop() + r.below(8):X}", "kind": "org"})
+        stmts.append({"text": r.choice(NEAR) + r.choice(labels), "kind": "ins"})
     fault = None
     if not good:
         fault = r.choice(["parse", "dup_label", "undef", "undef"])
@@ -171,9 +187,13 @@ def _model(prog: Dict[str, Any], symbols: Dict[str, int]) -> Dict[str, Any]:
             if name not in ptr:
                 ptr[name] = max(ptr.values())
             cur = name
+            if "label" in s:
+                labels[s["label"].upper()] = ptr[cur]
             continue
         if s["kind"] == "org":
             ptr[cur] = int(s["text"].split()[1], 0)
+            if "label" in s:
+                labels[s["label"].upper()] = ptr[cur]
             continue
         addr = ptr[cur]
         if "label" in s:
@@ -286,6 +306,8 @@ def check(scn: Dict[str, Any], hist: Dict[str, Any]) -> List[Dict[str, Any]]:
             probe("org")
         if any(t.lower() == "section bss" for t in texts):
             probe("bss")
+        if any(st["kind"] in ("org", "section") and "label" in st for st in prog["stmts"]):
+            probe("label_on_directive")
         syms = res.get("symbols") or {}
         for lb, val in m["labels"].items():
             if syms.get(lb) != val:
